@@ -56,7 +56,7 @@ Inductive msec :=
 | MSetC (p : path) (t : time)      (* write: set_creation_time *)
 | MSetM (p : path) (t : time)      (* write: set_modification_time *)
 | MSetA (p : path) (t : time)      (* write: set_access_time *)
-| MGetReader (p : path)            (* read : get + ensure_file + content.clone() in open_file *)
+| MGetReader (p : path)            (* write: get + ensure_file + stamp accessed + content.clone() in open_file *)
 | MInsertFile (p : path)           (* write: parent check + type check + insert of create_file *)
 | MAppendOpen (p : path)           (* write: get + ensure_file + clone in append_file *)
 | MMeta (p : path)                 (* read : metadata *)
@@ -121,7 +121,8 @@ Definition msec_sem (c : msec) : memfs -> memfs * msec_rep c :=
       | None => (s, fail ENotFound)
       | Some f => match f_type f with
                   | Dir => (s, fail EOther)
-                  | File => (s, Ok (f_content f))
+                  | File => (<[p := mkMemFile File (f_content f) (f_created f) (f_modified f) (Some TAuto)]> s,
+                             Ok (f_content f))
                   end
       end
   | MInsertFile p => fun s =>
@@ -189,13 +190,7 @@ Definition mem_call (c : fscall) : mprog (res (mval c)) :=
   match c as c return mprog (res (mval c)) with
   | CReadDir p => msec_call (MScan p)
   | CCreateDir p => msec_call (MInsertDir p)
-  | COpenFile p =>
-      bind (msec_call (MSetA p TAuto)) (fun r =>
-        match r with
-        | Ok _ => msec_call (MGetReader p)
-        | Err e => Ret (Err e)
-        | Panic => Ret Panic
-        end)
+  | COpenFile p => msec_call (MGetReader p)
   | CCreateFile p => msec_call (MInsertFile p)
   | CAppendFile p => msec_call (MAppendOpen p)
   | CMetadata p => msec_call (MMeta p)
